@@ -293,6 +293,9 @@ class RefChain(_GateFailures, RefMixin, PipeScenario):
             self.params["site"] = "+".join(parse(x)[0] for x in p["nodes"])
             self.params["model"] = "lossless"
         self.horizon = 2.0 if needs_clock(p["nodes"]) else 0.0
+        if needs_clock(p["nodes"]) and "slow" in p.get("opts", ()):
+            # time may pass while the consumer is busy (a consumer slower than the node's interval)
+            self.params["marks"] = (0.5, 1.0, 1.5, 2.0)
 
     def site(self):
         return self.params["site"]
@@ -525,6 +528,9 @@ def plan(ctx, prop="C04"):
         jobs.append(((prop, "chain", node, "sync", "burst", 3, 0), 1 if T else 0))
     for node in ("flatten2", "direct", "map", "sliding_window:2"):
         jobs.append(((prop, "chain", node, "alt", "await", 2, 0), 1))
+    # a consumer slower than the interval of the timing node in front of it
+    for node in ("delay:1", "rate_limit:1", "timed_window:1", "partition:2:1"):
+        jobs.append(((prop, "chain", node, "future", "await", 2, 0, "slow"), 0))
     # a node nobody consumes from, next to the pipeline
     for node in ("direct", "buffer:1"):
         jobs.append(((prop, "chain", node, "future", "await", 2, 0, "dead"), 1))
